@@ -229,6 +229,7 @@ func (p *peer) Dial(addr string, protoFunc ...ProtoFunc) (Session, *Status) {
 
 			_, err := p.dialer.dialWithRetry(addr, oldID, func(conn net.Conn) error {
 				sess.socket.Reset(conn, protoFunc...)
+				verifGate("redial.reset", sess)
 				if oldIP == oldID {
 					sess.socket.SetID(sess.LocalAddr().String())
 				} else {
